@@ -277,6 +277,26 @@ fn token_under_null(rep: &mut Report, rng: &mut Rng) {
         };
         (format!("`{}`", spell_json(&v, rng.below(3) as u8).replace('`', "\\`")), v)
     };
+    // as the right-hand side of a projection over elements some of which are null: one copy per non-null element
+    {
+        let docp = json!({"xs": [null, {"b": 2}, null, 7, "s"], "ys": [{"b": 1}, null]});
+        let (t2, w2) = (tok.clone(), want.clone());
+        for (text, k) in [(format!("xs[*].[{}]", t2), 3usize), (format!("ys[*].[{}, {}]", t2, t2), 1), (format!("xs[*].{{k: {}}}", t2), 3), (format!("xs[].[{}]", t2), 3), (format!("xs[1:].[{}]", t2), 3)] {
+            let item = if text.contains("{k:") {
+                json!({"k": w2.clone()})
+            } else if text.starts_with("ys") {
+                json!([w2.clone(), w2.clone()])
+            } else {
+                json!([w2.clone()])
+            };
+            let expect = Value::Array((0..k).map(|_| item.clone()).collect());
+            rep.evaluations += 1;
+            match search(&text, &docp) {
+                Ok(Ok(got)) if val_identical(&got, &expect) => rep.count("token_in_projection_ok"),
+                other => rep.violation("C09/token-loses-its-value-under-a-null-current-node", json!({"expression": text, "document": docp, "expected": expect, "got": format!("{:?}", other)})),
+            }
+        }
+    }
     const CTX: [(&str, bool); 12] = [
         ("nope | {}", false), ("nope | (@ | {})", false), ("[nope | {}]", true), ("nope || {}", false), ("(nope | @) | {}", false), ("nope.x | {}", false), ("`null` | {}", false),
         ("[`null`][0] | (@ | {})", false), ("{a: nope | (@ | {})}.a", false), ("nope | nope | {}", false), ("nope | ({} | @)", false), ("[nope | (nope | {})]", true),
@@ -325,7 +345,7 @@ pub fn run(args: &Args) {
     // fixed malformed forms
     if args.shard == 0 {
         for t in [
-            "'abc", "\"abc", "`abc", "'abc\\", "\"abc\\", "`abc\\", "\"a\nb\"", "\"\\ud800\"", "\"\\udc00\"", "\"\\ud800\\u0041\"", "\"\\x\"", "\"\\u12\"",
+            "'", "\"", "`", "a.'", "foo.\"bar\".\"", "a | `", "[a, '", "a == \"", "'abc", "\"abc", "`abc", "'abc\\", "\"abc\\", "`abc\\", "\"a\nb\"", "\"\\ud800\"", "\"\\udc00\"", "\"\\ud800\\u0041\"", "\"\\x\"", "\"\\u12\"",
             "`{`", "`[1,]`", "`01`", "`'a'`", "`a`", "``", "` `", "`1 2`", "`\"\\ud800\"`", "`nul`", "`1e400`", "\"\t\"",
         ] {
             rep.evaluations += 1;
